@@ -120,6 +120,21 @@ pub fn slot_unsplit_post(a: SlotV, b: SlotV, new: SlotV) -> bool {
     new.start == a.start && new.len == a.len + b.len && new.end_alloc == b.end_alloc
 }
 
+// ---- Reassembler::allocate_slot(reader) -> Slot --------------------------------------------------------------
+// (the cursors CurV are defined below; b / a = block start / allocation size of the reader offset, passed in so that
+// callers can compute them without a division: b == ra_block_start(off), a == ra_alloc_size(off))
+// requires: the reader is non-empty, not below the read cursor and not beyond a known final size
+// (call sites: write_reader_impl / write_reader_with_alloc after skip_until(start) and handle_reader_fin)
+pub fn alloc_slot_pre(c: CurV, off: i128, len: i128) -> bool {
+    len >= 1 && c.start <= off && off + len <= ra_varint_max() && (!cur_fin_known(c) || off + len <= c.fin)
+}
+// ensures: an empty slot from max(block start, read cursor) to the block end, cut at the final size if the reader
+// ends exactly there
+pub fn alloc_slot_post(c: CurV, off: i128, len: i128, b: i128, a: i128, v: SlotV) -> bool {
+    v.start == ra_max(b, c.start) && v.len == 0
+        && v.end_alloc == (if cur_fin_known(c) && c.fin == off + len && off + len < b + a { off + len } else { b + a })
+}
+
 // ---- Reassembler cursors: abstraction (start, max_recv, fin) with fin == -1 for "unknown" ------------------------
 #[derive(Clone, Copy)]
 pub struct CurV { pub start: i128, pub max_recv: i128, pub fin: i128 }
